@@ -692,6 +692,9 @@ class CAMTransmissionManagement:
         # T_CheckCamGen timer
         self._active: bool = False
         self._timer: Optional[threading.Timer] = None
+        # T_GenCamMin also bounds the interval across a stop()/start() cycle: earliest time [ms]
+        # at which the first CAM of the next activation may be generated.
+        self._restart_hold_until_ms: Optional[int] = None
 
         # Legacy compatibility attribute
         self.last_cam_generation_delta_time: Optional[GenerationDeltaTime] = None
@@ -705,6 +708,8 @@ class CAMTransmissionManagement:
         if self._active:
             return
         self._active = True
+        if self._last_cam_time_ms is not None:
+            self._restart_hold_until_ms = self._last_cam_time_ms + T_GEN_CAM_MIN
         # Reset per-activation state
         self._cam_count = 0
         self._last_cam_time_ms = None
@@ -786,8 +791,12 @@ class CAMTransmissionManagement:
 
         now_ms = int(TimeService.time() * 1000)
 
-        # First CAM after activation — send immediately (no elapsed constraint)
+        # First CAM after activation — send immediately (no elapsed constraint), unless the
+        # last CAM of the previous activation is less than T_GenCamMin old (quick stop/start).
         if self._last_cam_time_ms is None:
+            if (self._restart_hold_until_ms is not None
+                    and now_ms < self._restart_hold_until_ms):
+                return
             self._generate_and_send_cam(tpv, now_ms, condition=1)
             return
 
